@@ -300,7 +300,20 @@ def dtab_api(ctx, prog):
 
 dtab_api.rule_id = "C07.DTAB-api"
 
-RULES = [guard_read, wmw_value, wmw_inuse, tyg_by_value, sib_var_slot, dom_status_first, dtab_api]
+def wmc_truncating(ctx, prog):
+    """Every observer created before a stabilise is linked by it (no walk over the new-observer queue ends at a dead
+    entry): otherwise some observers still answer NeverStabilised while later ones show new values."""
+    from .c11 import wmc_loop_exit_on_dead, _wmc_truncating_adaptors
+    from .engine import run_relabelled
+    R = "C07.WMC-truncating"
+    ctx.rule(R, "no loop over the observer queues ends on a dead weak entry; no truncating adaptor")
+    run_relabelled(ctx, prog, _wmc_truncating_adaptors, "C11.WMC-truncating", R)
+    wmc_loop_exit_on_dead(ctx, prog, R)
+
+
+wmc_truncating.rule_id = "C07.WMC-truncating"
+
+RULES = [guard_read, wmw_value, wmw_inuse, tyg_by_value, sib_var_slot, dom_status_first, dtab_api, wmc_truncating]
 
 # control signature of the bookkeeping effects this property depends on (rules/ctrlsig.py)
 from .ctrlsig import make_rule as _ctrl_rule  # noqa: E402
